@@ -86,6 +86,112 @@ theorem nonnull_sup (s o : TName) (hs : s.nullable = false) (ho : o.nullable = f
   unfold tnSup
   simp [hne, hs, ho]
 
+/-! ### Reflexivity and transitivity lift from the class table to every type
+
+The class-table relation `V` (on variants) is decided exhaustively on the property's universe; the two
+theorems below carry its reflexivity and transitivity to ALL nullable variants and ALL unions built over
+it, of any size. -/
+
+/-- the member-level relation is reflexive wherever the variant relation is -/
+theorem tnSup_refl (t : TName) (hv : V t t = .ok true) : tnSup V t t = .ok true := by
+  unfold tnSup
+  by_cases he : t.isEmpty = true
+  · by_cases hn : (t.nullable && t.isNull) = true
+    · simp [he, hn]
+    · cases hnl : t.nullable <;> simp [he, hv]
+  · have he' : t.isEmpty = false := by simpa using he
+    by_cases hn : (t.nullable && t.isNull) = true
+    · simp [he', hn]
+    · cases hnl : t.nullable <;> simp [he', hv]
+
+/-- what `tnSup V s o = ok true` means -/
+theorem tnSup_true_iff (s o : TName) :
+    tnSup V s o = .ok true ↔
+      ((!s.isEmpty && o.isEmpty) = false ∧
+        ((s.nullable && o.isNull) = true ∨
+          ((s.nullable || (!s.nullable && !o.nullable)) = true ∧ V s o = .ok true))) := by
+  unfold tnSup
+  by_cases h1 : (!s.isEmpty && o.isEmpty) = true
+  · simp [h1]
+  · have h1' : (!s.isEmpty && o.isEmpty) = false := by simpa using h1
+    rw [if_neg h1]
+    by_cases h2 : (s.nullable && o.isNull) = true
+    · simp [h1', h2]
+    · rw [if_neg h2]
+      by_cases h3 : (s.nullable || (!s.nullable && !o.nullable)) = true
+      · simp [h3, h1', h2]
+      · simp [h3, h1', h2]
+
+/-- **transitivity of the member-level relation**: for a variant relation that is transitive and below
+    which `None` only has `None`, nullable flags and the empty tuple do not break transitivity -/
+theorem tnSup_trans (a b c : TName)
+    (htrans : V a b = .ok true → V b c = .ok true → V a c = .ok true)
+    (hnull : b.isNull = true → V b c = .ok true → c.isNull = true)
+    (h1 : tnSup V a b = .ok true) (h2 : tnSup V b c = .ok true) : tnSup V a c = .ok true := by
+  rw [tnSup_true_iff] at h1 h2 ⊢
+  obtain ⟨e1, r1⟩ := h1
+  obtain ⟨e2, r2⟩ := h2
+  refine ⟨?_, ?_⟩
+  · cases ha : a.isEmpty <;> cases hb : b.isEmpty <;> cases hc : c.isEmpty <;> simp_all
+  · rcases r1 with r1 | ⟨n1, v1⟩
+    · -- a nullable, b is None
+      have han : a.nullable = true := by
+        cases h : a.nullable <;> simp_all
+      have hbn : b.isNull = true := by
+        cases h : b.isNull <;> simp_all
+      rcases r2 with r2 | ⟨_, v2⟩
+      · left
+        have : c.isNull = true := by cases h : c.isNull <;> simp_all
+        simp [han, this]
+      · left
+        simp [han, hnull hbn v2]
+    · rcases r2 with r2 | ⟨n2, v2⟩
+      · -- b nullable, c is None: then a is nullable
+        left
+        have hbn : b.nullable = true := by cases h : b.nullable <;> simp_all
+        have hcn : c.isNull = true := by cases h : c.isNull <;> simp_all
+        have han : a.nullable = true := by
+          cases h : a.nullable <;> simp_all
+        simp [han, hcn]
+      · right
+        refine ⟨?_, htrans v1 v2⟩
+        cases ha : a.nullable <;> cases hb : b.nullable <;> cases hc : c.nullable <;> simp_all
+
+/-- **reflexivity for unions of any size** (non-interchangeable names) -/
+theorem nameSup_refl (s : NameT) (hi : s.inter = false) (h : NoErr V s s)
+    (hv : ∀ n ∈ s.names, V n n = .ok true) : nameSup V s s = .ok true := by
+  have hne : (!s.isEmpty && s.isEmpty) = false := by cases s.isEmpty <;> rfl
+  rw [sup_iff_members V s s hi hne h]
+  intro n hn
+  exact ⟨n, hn, tnSup_refl V n (hv n hn)⟩
+
+/-- a true answer is never given to an empty right-hand side by a non-empty left-hand side -/
+theorem nameSup_true_nonempty (s o : NameT) (h : nameSup V s o = .ok true) :
+    (!s.isEmpty && o.isEmpty) = false := by
+  unfold nameSup at h
+  by_cases hc : (!s.isEmpty && o.isEmpty) = true
+  · rw [if_pos hc] at h; exact absurd h (by simp)
+  · simpa using hc
+
+/-- **transitivity for unions of any size**: if the variant relation is transitive (and only `None` is
+    below `None`) on the members involved, then `S ⊒ O` and `O ⊒ P` give `S ⊒ P` -/
+theorem nameSup_trans (s o p : NameT) (hio : o.inter = false) (hip : p.inter = false)
+    (hso : NoErr V s o) (hop : NoErr V o p) (hsp : NoErr V s p)
+    (htrans : ∀ a ∈ s.names, ∀ b ∈ o.names, ∀ c ∈ p.names, V a b = .ok true → V b c = .ok true → V a c = .ok true)
+    (hnull : ∀ b ∈ o.names, ∀ c ∈ p.names, b.isNull = true → V b c = .ok true → c.isNull = true)
+    (h1 : nameSup V s o = .ok true) (h2 : nameSup V o p = .ok true) : nameSup V s p = .ok true := by
+  have e1 := nameSup_true_nonempty V s o h1
+  have e2 := nameSup_true_nonempty V o p h2
+  have e3 : (!s.isEmpty && p.isEmpty) = false := by
+    cases ha : s.isEmpty <;> cases hb : o.isEmpty <;> cases hc : p.isEmpty <;> simp_all
+  rw [sup_iff_members V s o hio e1 hso] at h1
+  rw [sup_iff_members V o p hip e2 hop] at h2
+  rw [sup_iff_members V s p hip e3 hsp]
+  intro c hc
+  obtain ⟨b, hb, hbc⟩ := h2 c hc
+  obtain ⟨a, ha, hab⟩ := h1 b hb
+  exact ⟨a, ha, tnSup_trans V a b c (htrans a ha b hb c hc) (hnull b hb c hc) hab hbc⟩
+
 /-! Non-vacuity: on a two-class table `Int` (child of `Float`) the relation is the expected one. -/
 def tbl2 : Tbl := [⟨"Float", [], []⟩, ⟨"Int", [], [.mk false true "Float" []]⟩]
 def tInt : NameT := .mk false [.mk false true "Int" []]
@@ -93,6 +199,15 @@ def tFloat : NameT := .mk false [.mk false true "Float" []]
 def tIntOrFloat : NameT := .mk false [.mk false true "Int" [], .mk false true "Float" []]
 example : isSuperset tbl2 8 tFloat tInt = .ok true ∧ isSuperset tbl2 8 tInt tFloat = .ok false
     ∧ isSuperset tbl2 8 tFloat tIntOrFloat = .ok true ∧ isSuperset tbl2 8 tInt tIntOrFloat = .ok false := by
+  decide +kernel
+
+/-- non-vacuity of the transitivity theorem: a chain through a union on a three-level hierarchy -/
+def tbl3 : Tbl := [⟨"A", [], []⟩, ⟨"B", [], [.mk false true "A" []]⟩, ⟨"C", [], [.mk false true "B" []]⟩, ⟨"None", [], []⟩]
+def tAq : NameT := .mk false [.mk true true "A" []]
+def tBorNone : NameT := .mk false [.mk false true "B" [], .mk false true "None" []]
+def tC : NameT := .mk false [.mk false true "C" []]
+example : isSuperset tbl3 8 tAq tBorNone = .ok true ∧ isSuperset tbl3 8 tBorNone tC = .ok true
+    ∧ isSuperset tbl3 8 tAq tC = .ok true ∧ isSuperset tbl3 8 tC tAq = .ok false := by
   decide +kernel
 
 end MV.C20
